@@ -18,6 +18,27 @@ class SimDeadlock(RuntimeError):
     """run_until_complete() was asked to wait, but nothing can ever wake the loop."""
 
 
+class _SeqTimerHandle(_events.TimerHandle):
+    """TimerHandle with FIFO order among equal deadlines (plain asyncio leaves ties unspecified)."""
+    __slots__ = ("_seq",)
+
+    def __lt__(self, other):
+        if isinstance(other, _SeqTimerHandle):
+            return (self._when, self._seq) < (other._when, other._seq)
+        return self._when < other._when
+
+    def __le__(self, other):
+        return self == other or self < other
+
+    def __gt__(self, other):
+        return not self <= other
+
+    def __ge__(self, other):
+        return not self < other
+
+    __hash__ = _events.TimerHandle.__hash__
+
+
 class _FakeSelector:
     __slots__ = ("loop",)
 
@@ -57,6 +78,7 @@ class SimLoop(base_events.BaseEventLoop):
         self.loop_exceptions = []
         self.set_exception_handler(self._record_exception)
         self._task_counter = 0
+        self._timer_seq = 0
         self.set_task_factory(self._task_factory)
 
     # Deterministic task names (default names come from a process-global counter)
@@ -73,6 +95,18 @@ class SimLoop(base_events.BaseEventLoop):
     # --- clock -------------------------------------------------------------------
     def time(self):
         return self._now
+
+    def call_at(self, when, callback, *args, context=None):
+        if when is None:
+            raise TypeError("when cannot be None")
+        self._check_closed()
+        timer = _SeqTimerHandle(when, callback, args, self, context)
+        self._timer_seq += 1
+        timer._seq = self._timer_seq
+        import heapq
+        heapq.heappush(self._scheduled, timer)
+        timer._scheduled = True
+        return timer
 
     # --- BaseEventLoop plumbing ----------------------------------------------------
     def _process_events(self, event_list):
